@@ -34,3 +34,57 @@ SPECS["C17"] = dict(
     trusted_base=["Rust std::io::Read contract (a reader never reports more bytes than the buffer holds)"],
     assumptions=["64-bit usize; allocation failure (OOM abort) not modelled"],
 )
+
+# ---- track abt: AtomicBaseTime (C13, C18) -----------------------------------------------------------
+_ABT_TRUST = ("Partial by nature: the theorems are about two memory-model MACHINES (sequentially consistent interleaving; a "
+              "release/acquire view machine with per-location message lists and per-thread views) running hand-written thread "
+              "programs; that the view machine renders the Rust/C++20 memory model for this access pattern, and that one atomic "
+              "access = one step, are trusted. The programs are tied to /repo by hook H3: every access of the real "
+              "snapshot/update/try_update/get_base_time_unlocked (location, kind, ORDERING, value stored, retry rule, lock "
+              "operations) is compared with the model's trace for every control path (trace validation), whole executions "
+              "(schedules x reads-from from the harness's own RA simulator) are replayed step by step on the Lean machines, and a "
+              "bounded exhaustive schedule x reads-from search on the real functions looks for a failing execution (used only to "
+              "find inputs, never as proof). Sequence-counter wrap-around after 2^64 updates is excluded (seq is a Nat).")
+
+SPECS["C13"] = dict(
+    title="AtomicBaseTime snapshots are never torn and never go backwards, on any schedule",
+    lean_modules=["Woodpile.Props.C13"],
+    theorems=[
+    ],
+    families=[dict(name="abt", quick=1500, thorough=60000)],
+    vtags=["C13"],
+    technique="Lean 4 proof (inductive invariant over all schedules / reads-from choices of an SC machine and a release/acquire "
+              "view machine, any number of threads and operations) + H3 trace validation of the real functions + bounded RA exploration oracle",
+    design_ref="DESIGN.md section 5 C13, section 3.5 (H3), appendix A.3",
+    level_text=("Kernel-checked theorems about Lean small-step models of AtomicBaseTime::{snapshot, update, try_update, advance_once} "
+                "(one atomic access or lock operation per step, with the code's locations and orderings) on a sequentially consistent "
+                "machine and on a release/acquire view machine, for every schedule, every reads-from choice, any number of threads and "
+                "operations: inductive invariant, snapshots never torn / always a published pair or the epoch pair / never panic / at "
+                "least as recent as every update that happened-before the snapshot began, per-thread monotone, stale updates ignored."),
+    level_note=_ABT_TRUST,
+    trusted_base=["the release/acquire view machine as a rendering of the Rust memory model for the orderings used (DESIGN.md section 8)",
+                  "hook H3 (verif_shim) reports every access of atomic_base_time.rs faithfully; std::sync::Mutex provides mutual exclusion and release/acquire transfer"],
+    assumptions=["sequence counter does not wrap (fewer than 2^64 accepted updates)", "64-bit usize"],
+)
+
+SPECS["C18"] = dict(
+    title="AtomicBaseTime readers and try_update never wait for a writer",
+    lean_modules=["Woodpile.Props.C18"],
+    theorems=[
+        "Woodpile.Props.C18.snapshot_no_lock",
+        "Woodpile.Props.C18.unlocked_inherits",
+    ],
+    families=[dict(name="abt", quick=1500, thorough=60000)],
+    vtags=["C18"],
+    technique="Lean 4 proof (termination measure for a reader run alone from any reachable state of the SC / release-acquire "
+              "machines with writers frozen anywhere) + H3 trace validation + suspension-point enumeration on the real functions",
+    design_ref="DESIGN.md section 5 C18, section 3.5 (H3), appendix A.3",
+    level_text=("Kernel-checked theorems about the same models as C13: the snapshot program contains no lock operation and no store; "
+                "from any reachable state, with every other thread frozen anywhere (including a writer holding the lock forever), a "
+                "reader run alone finishes within a bound on its own steps; a retry implies a newer sequence message; try_update "
+                "returns false in one step when the lock is held; get_base_time_unlocked is snapshot."),
+    level_note=_ABT_TRUST + " Boundedness is in the model's steps (atomic operations of the thread itself); OS scheduling fairness is outside any model.",
+    trusted_base=["the release/acquire view machine as a rendering of the Rust memory model for the orderings used (DESIGN.md section 8)",
+                  "hook H3 (verif_shim) reports every access of atomic_base_time.rs faithfully"],
+    assumptions=["sequence counter does not wrap (fewer than 2^64 accepted updates)", "64-bit usize"],
+)
